@@ -211,8 +211,9 @@ Fixpoint skip_comments (last : option token) (ts : list token) : option token * 
   | t :: r => match tty t with COMMENT => skip_comments (Some t) r | _ => (last, ts) end
   | [] => (last, [])
   end.
-Definition recognise_tree (ts : list token) : rres :=
-  let '(last, r) := skip_comments None ts in pda_run pda_init last r.
+Definition recognise_tree_from (l : option token) (ts : list token) : rres :=
+  pda_run pda_init (fst (skip_comments l ts)) (snd (skip_comments l ts)).
+Definition recognise_tree (ts : list token) : rres := recognise_tree_from None ts.
 
 (** Position reported for a result that is not an acceptance: the offending
     token's (line, offset); at end of input the END of the last token read, or
@@ -230,3 +231,28 @@ Definition rres_pos (r : rres) : option (N * N) :=
 (* index of the offending token in the input (None: accepted or ran out) *)
 Definition rres_index (ts : list token) (r : rres) : option nat :=
   match r with RFail rest => Some (length ts - length rest) | _ => None end.
+
+(** A sequence of trees, as iterparse reads them: while a token remains and it is a
+    COMMENT or an LPAREN, recognise one tree.  Result: the nodes recognised and the
+    position of the error that ended the sequence, if any.  The counter only bounds
+    the number of rounds (each consumes at least one token). *)
+Definition starts_tree (t : token) : bool :=
+  match tty t with COMMENT | LPAREN => true | _ => false end.
+Fixpoint recognise_seq (f : nat) (l : option token) (ts : list token) (acc : list node)
+  : list node * option (N * N) :=
+  match f with
+  | O => (rev acc, None)
+  | S f' =>
+      match ts with
+      | [] => (rev acc, None)
+      | t :: _ =>
+          if starts_tree t then
+            match recognise_tree_from l ts with
+            | RAccept n rest last => recognise_seq f' last rest (n :: acc)
+            | r => (rev acc, rres_pos r)
+            end
+          else (rev acc, None)
+      end
+  end.
+Definition recognise_all (ts : list token) : list node * option (N * N) :=
+  recognise_seq (S (length ts)) None ts [].
